@@ -24,7 +24,7 @@ fi
 if [ ! -x "$V/bin/dynmodel" ] || [ "$V/ocaml/gen/model.ml" -nt "$V/bin/dynmodel" ] || [ "$V/ocaml/driver.ml" -nt "$V/bin/dynmodel" ]; then
   cp "$V/ocaml/gen/model.ml" "$V/ocaml/gen/model.mli" "$V/ocaml/driver.ml" "$V/ocaml/_b/"
   cd "$V/ocaml/_b"
-  ocamlfind ocamlopt -O2 -w -a model.mli model.ml driver.ml -o "$V/bin/dynmodel.new" 2>/dev/null || ocamlfind ocamlopt -w -a model.mli model.ml driver.ml -o "$V/bin/dynmodel.new"
+  ocamlfind ocamlopt -package zarith -linkpkg -O2 -w -a model.mli model.ml driver.ml -o "$V/bin/dynmodel.new" 2>/dev/null || ocamlfind ocamlopt -package zarith -linkpkg -w -a model.mli model.ml driver.ml -o "$V/bin/dynmodel.new"
   mv -f "$V/bin/dynmodel.new" "$V/bin/dynmodel"
 fi
 echo "setup ok"
